@@ -1,5 +1,6 @@
 import ZenonVerif.Model.Codec
 import ZenonVerif.Model.CodecPB
+import ZenonVerif.Model.CodecText
 import Driver.Core
 /-
 Driver handler of the `codec` stream (C13).
@@ -103,6 +104,25 @@ def pureCodec : List String → Option String
       let (m, rest) ← parseMomentum toks
       if !rest.isEmpty then none
       pure (showHex m.serialize)
+  | ["amount-json", a] => do
+      let a ← a.toInt?
+      let s := showAmount a
+      pure s!"{String.ofList s} {stringToBigInt s}"
+  | ["amount-parse", hexOfString] => do
+      -- the string is passed as hex of its UTF-8 bytes; the model reads ASCII (bytes ≥ 128 are never digits)
+      let bs ← ofHex hexOfString
+      pure (toString (stringToBigInt (bs.map Char.ofNat)))
+  | ["nonce-json", n] => do
+      let n ← ofHex n
+      let s := hexChars n
+      match nonceUnmarshalText s with
+      | some b => pure s!"{String.ofList s} ok {showHex b}"
+      | none => pure s!"{String.ofList s} err"
+  | ["nonce-parse", hexOfString] => do
+      let bs ← ofHex hexOfString
+      match nonceUnmarshalText (bs.map Char.ofNat) with
+      | some b => pure s!"ok {showHex b}"
+      | none => pure "err"
   | _ => none
 
 end ZV.Driver
